@@ -379,19 +379,19 @@ def oracle_sc(line, out):
                 elif c["ph"] == "W" and c["w"] is not None:
                     dl = int(c["w"]) + cfg["wi"]
                 elif c["ph"] in "RP" and not c["inev"]:
-                    return "connection %d waits for its client without FDEVENT_IN interest (no timeout applies)" % i
+                    return "a connection waits for its client without FDEVENT_IN interest (no timeout applies)"
                 elif c["ph"] in "SEN?":
-                    return "connection %d rests in a transient state" % i
+                    return "a connection rests in a transient state"
                 if dl is not None and now > dl and op[0] == "t":
-                    return ("connection %d still open at second %d, past its deadline %d (state %s): the sweep "
-                            "did not end it" % (i, now, dl, c["ph"]))
+                    return ("a connection is still open after the sweep past its deadline (state %s): the "
+                            "timeout did not end it" % c["ph"])
             if len(live) > cfg["mc"]:
-                return "%d connections served with max-connections %d" % (len(live), cfg["mc"])
+                return "more connections served than server.max-connections"
             if len(live) + lim != cfg["mc"]:
-                return "slot accounting: %d live + %d free != max-connections %d" % (len(live), lim, cfg["mc"])
+                return "slot accounting: live connections + free slots != max-connections"
             waiting = [i for i, c in cls.items() if c["ph"] == "-" and i not in closed and not c["E"] and not c["F"]]
             if waiting and g_at is None and lim > 0 and (cfg["cf"] + len(live)) < lowat:
-                return "client %d left waiting in the listen queue although a slot and descriptors are free" % waiting[0]
+                return "a client is left waiting in the listen queue although a slot and descriptors are free"
         if g_at is not None:
             acc = set(i for i, c in cls.items() if c["ph"] != "-")
             if accepted_at_g is None:
@@ -399,16 +399,16 @@ def oracle_sc(line, out):
                 if dis != 3:
                     return "graceful shutdown: listen sockets not closed"
             elif acc - accepted_at_g:
-                return "graceful shutdown: connection %d accepted after the signal" % sorted(acc - accepted_at_g)[0]
+                return "graceful shutdown: a connection was accepted after the signal"
             if cfg["gt"] and now > g_at + cfg["gt"] and not exited and op[0] == "t":
-                return "graceful shutdown: main loop still running at second %d (signal at %d, timeout %d)" % (now, g_at, cfg["gt"])
+                return "graceful shutdown: main loop still running after the graceful timeout"
     # (e) statuses at the end
     _, _, _, cls = parse_obs(obs[-1])
     for i, c in cls.items():
         exp = reqs.get(i, [])
         for k, stt in enumerate(c["st"]):
             if k < len(exp) and exp[k] and stt == 200:
-                return "request %d of client %d exceeds the configured limits but was answered 200" % (k, i)
+                return "a request exceeding the configured limits was answered 200"
     return None
 
 
